@@ -14,6 +14,43 @@ HARNESS = ("harness/cmd/vharness (Go, built against /repo's working tree with -t
 NOT_APPLICABLE = {}
 
 PROPS = {
+    "C01": {
+        "design_ref": "DESIGN.md section 6 (C01)",
+        "projection": "decode(encode p) through both entry points, and the error verdict",
+        "mismatch_is_input": True,
+        "timeout": {"quick": 1500, "thorough": 6000},
+        "level_text": "One-shot round trip for every packet of the valid domain, every threshold and every pooled-header state is a Coq theorem (corollary of C02's two directions, C09's round trip and the stated contract of compress/gzip); unrepresentable packets provably yield an error. The streaming entry point is covered by C03's theorems plus the differential run. Tie: the composition decode(encode p) on the implementation vs the model and vs p itself, both entry points, thresholds around the body length, 2^24 boundaries.",
+        "level_note": "Trusted: kernel, translator, extraction, harness; compress/gzip is an oracle (gz_contract: reading what was compressed yields the input and EOF), instantiated per case with the standard library's own output. Packets whose Gzip flag is preset by the caller are outside wf_packet (modelled, compared, not in the theorem).",
+        "assumptions": ["compress/gzip round trip (gz_contract)", "encoding/binary.BigEndian = big-endian by div/mod", "Go int is 64-bit"],
+        "modelled": "go/v1/v1.go, go/v2/v2.go Pack/UnpackBytes/Unpack; go/v1/header.go, go/v2/v2_header.go; go/gzip/gzip.go Compress/Decompress (hand-written Gallina mirror)",
+    },
+    "C02": {
+        "design_ref": "DESIGN.md section 6 (C02)",
+        "projection": "encoder bytes; decoded fields and accept/reject verdict",
+        "mismatch_is_input": True,
+        "level_text": "Both directions are Coq theorems against Model/Spec.v, an arithmetic transcription of the published layout that shares nothing with the bit-level model of the Go code: pack = spec_frame for every representable packet/threshold/pool state, and unpack_bytes (spec_frame f) = the layout's field values for every well-formed field tuple incl. reserve bits and extremes; unknown type nibbles rejected. Tie: byte-for-byte and field-for-field differential against the model and, independently, against a layout-derived reference codec in the harness; all 256 values of byte 0 exhaustively.",
+        "level_note": "Trusted: kernel, translator (header lengths, masks, limits come from the Go compiler), extraction, harness incl. its reference codec. Trailing bytes after a frame in one-shot decode land in the signature (stated, visible in the model).",
+        "assumptions": ["encoding/binary.BigEndian = big-endian by div/mod", "Go uint8/uint16/uint32 truncation = N mod 2^k"],
+        "modelled": "go/v1/header.go, go/v2/v2_header.go (Pack, UnpackBytes, Metadata, headerFromMetadata, pool Get), go/v1/v1.go, go/v2/v2.go (Pack, UnpackBytes)",
+    },
+    "C10": {
+        "design_ref": "DESIGN.md section 6 (C10)",
+        "projection": "gzip verdict and content; frame gzip flag and body",
+        "mismatch_is_input": True,
+        "level_text": "Relative to the oracle for compress/gzip: Decompress succeeds exactly for a complete valid stream and then returns its full content, everything else is an error (theorems); Compress/Decompress identity under the round-trip contract; frame level: compressed iff threshold non-zero and body length >= threshold, flag set accordingly, receiver sees the original body (theorems). Tie: every truncation and every single-byte corruption (3 patterns) of small valid streams, ISIZE under/overstated, multi-member, trailing garbage, sizes to 1 MiB, compared with the model instantiated by the stdlib reader's verdict; concurrency on the pooled compressors is a direct stress oracle (not a theorem).",
+        "level_note": "Trusted: kernel, extraction, harness; DEFLATE itself is not modelled (no verified inflate installed). The pools' concurrent ownership is checked by stress only: partial for the 'also under concurrent use' clause.",
+        "assumptions": ["compress/gzip reader verdicts as observed per case; Reset restores a fresh state", "sync.Pool hands an object to one owner"],
+        "modelled": "go/gzip/gzip.go Compress, Decompress, DecompressedSize; the gzip branch of Pack/Unpack/UnpackBytes",
+    },
+    "C11": {
+        "design_ref": "DESIGN.md section 6 (C11)",
+        "projection": "per-operation results of multi-context histories",
+        "mismatch_is_input": True,
+        "level_text": "Isolation over every history is a Coq theorem: in any interleaving of Pack / UnpackBytes / feed / Unpack / Unpack-until-not-done over any number of contexts and any pool contents, each context observes exactly what it observes running alone (C11_isolation), one-shot decode leaves the context untouched, the pooled header is completely reset. Tie: random histories of 5-40 operations over 1-3 contexts of both versions with partial, failing and successful decodes on real (wrapped) ring buffers, per-operation results compared with the model; N goroutines with independent contexts against the sequential results (direct oracle).",
+        "level_note": "Trusted: kernel, extraction, harness. sync.Pool is modelled as handing out an object with arbitrary stale contents; goroutine interleavings inside the pools are stress-tested, not proved.",
+        "assumptions": ["sync.Pool hands an object to one owner at a time", "a context is used by one goroutine (as the client does)"],
+        "modelled": "headerPool.Get/Put sites, headerFromContext, the defers of Unpack/UnpackBytes/Pack, Context.SetHeader/GetHeader/EndUnpack",
+    },
     "C09": {
         "design_ref": "DESIGN.md section 6 (C09)",
         "projection": "marshalled bytes / decoded maps / Set,Get results",
